@@ -5,6 +5,7 @@
   recursion scheme (the quantity the cfg hook counts).
 -/
 import MelModel.VM.Op
+import MelModel.Prim.Map
 import MelModel.Generated.Tables
 namespace Mel.VM
 open Mel Mel.Gen
@@ -64,5 +65,51 @@ def weighWorkF : Nat → List Op → Nat
      | _ => 1) + weighWorkF fuel rest
 
 def weighWork (ops : List Op) : Nat := weighWorkF (ops.length + 1) ops
+
+/-! ### the weigher as implemented since the `fix:` for F2
+
+`weight` above is the *specification* (and was, literally, the old implementation: a recursion that weighs every
+loop body once for the loop and once more as part of the enclosing sequence, `weighWork` calls in all — exponential in
+the nesting depth).  The implementation now computes the same number with one right-to-left pass per distinct
+"end" (the end of the program and the unclipped ends of the loop bodies), in increasing order of the ends. -/
+
+/-- where the body of the loop at position `j` ends when nothing clips it -/
+def naturalEnd (n j bodyLen : Nat) : Nat := min (j + 1 + bodyLen) n
+
+/-- the distinct ends, ascending -/
+def weighEnds (ops : List Op) : List Nat :=
+  let n := ops.length
+  let nat := (ops.zipIdx).filterMap fun (op, j) =>
+    match op with
+    | .loop _ m => some (naturalEnd n j m.toNat)
+    | _ => none
+  Mel.sortDedup (fun a b => decide (a < b)) (nat ++ [n])
+
+/-- one pass: positions `stop - 1, …, 0` with `suffix` = weight of `ops[j+1 .. stop)`; `tbl[j]` holds the weight of
+    the loop at `j` with its unclipped body once the pass for that body's end has been made -/
+def weighPass (ops : List Op) (n stop : Nat) (tbl : List (Option Nat)) : Nat × List (Option Nat) :=
+  (List.range stop).reverse.foldl (fun (acc : Nat × List (Option Nat)) j =>
+    let (suffix, tbl) := acc
+    match (ops[j]? : Option Op) with
+    | none => (suffix, tbl)
+    | some (Op.loop it m) =>
+      let bodyEnd := naturalEnd n j m.toNat
+      match tbl[j]?.join with
+      | some w => if bodyEnd < stop then (satAdd128 suffix w, tbl) else
+          let w' := satAdd128 (satMul128 suffix it.toNat) wLoopExtra
+          (satAdd128 suffix w', if bodyEnd = stop then tbl.set j (some w') else tbl)
+      | none =>
+          let w' := satAdd128 (satMul128 suffix it.toNat) wLoopExtra
+          (satAdd128 suffix w', if bodyEnd = stop then tbl.set j (some w') else tbl)
+    | some op => (satAdd128 suffix (opWeight op), tbl)) (0, tbl)
+
+/-- `opcodes_weight` as implemented now -/
+def weightDP (ops : List Op) : Nat :=
+  let n := ops.length
+  ((weighEnds ops).foldl (fun (acc : Nat × List (Option Nat)) stop =>
+    weighPass ops n stop acc.2) (0, List.replicate n none)).1
+
+/-- number of pass steps the implementation makes (the hook counter counts exactly these) -/
+def weighWorkDP (ops : List Op) : Nat := ((weighEnds ops).map id).sum
 
 end Mel.VM
